@@ -41,7 +41,14 @@ DOC_FRAGMENTS = [
     "",
     "    indented",
     "tab\there",
+    "See https://example.org/well-known/spec-sheet.html for the wire-level details.",
+    "Link: http://host/a-b-c and a trailing-hyphen-",
 ]
+# words for over-long comment lines (block-comment filters wrap them; hyphenated words may be broken at the margin)
+LONG_WORDS = [
+    "state-of-the-art", "re-entrant", "byte-aligned", "well-known", "zero-extended", "little-endian", "the", "a", "of", "value", "field",
+    "implementation-defined", "non-zero", "x", "is", "measurement", "two-phase", "co-ordinate", "https://example.org/a-b", "saturated,", "unit-less",
+]  # fmt: skip
 
 
 class GenType:
@@ -204,7 +211,15 @@ def _const_line(r: Rng, name: str) -> str:
 def _doc_lines(r: Rng, p: Profile) -> typing.List[str]:
     if not p.docs or r.chance(1, 2):
         return []
-    return ["# " + r.choice(DOC_FRAGMENTS) if r.chance(5, 6) else "#" for _ in range(r.between(1, 3))]
+    out = ["# " + r.choice(DOC_FRAGMENTS) if r.chance(5, 6) else "#" for _ in range(r.between(1, 3))]
+    if r.chance(1, 4):
+        # one over-long line: 90..220 characters of words, many of them hyphenated
+        want = r.between(90, 220)
+        words = []  # type: typing.List[str]
+        while sum(len(w) + 1 for w in words) < want:
+            words.append(r.choice(LONG_WORDS))
+        out.insert(r.below(len(out) + 1), "# " + " ".join(words))
+    return out
 
 
 def _gen_section(
